@@ -187,6 +187,7 @@ func runC13(c *Ctx, w *World, r *Report) {
 	ReportScale(w, r, names...)
 	ReportPair(w, r, names...)
 	ReportRound(w, r, names...)
+	ReportTableWidth(w, r)
 	if !ok {
 		return
 	}
